@@ -27,6 +27,9 @@ CHECKS = {
  "C07": ("cmdsim","exploration","§5 C07","deterministic simulation on the direct Command with buggify-injected spurious wake-ups; is_done compared with the reference at every quiescent point",
    "Seeded search over programs mixing requests, streams, joins, selects, join handles and self-waking futures with resolve-some/drop-others scripts; is_done and all outputs are compared with a reference that discards a task exactly when it finished, was cancelled or can never be woken again. Sampling, not proof.",
    "Trusted: reference model; Future-contract-compliant task code; either answer accepted while requests of losing select branches are still held by the shell."),
+ "C08": ("thrsim","exploration","§5 C08, §2.7","deterministic simulation of thread schedules: real OS threads parked and released one at a time by a baton-passing controller at named schedule points; explicit preemption schedule as replay file",
+   "Two or three simulated shell threads call into one Core or Bridge concurrently (resolve, stream items - several threads on one stream id over the bridge -, process_event, view); the controller decides every interleaving at the placed points, and totals, per-emitter order, view prefixes, quiescence and liveness of subscriptions are compared with the sequential outcome. Seeded search over schedules, not exhaustive.",
+   "Trusted: placement of the schedule points (every cross-thread read/write of runtime state found by reading the anchored files), sequential consistency, commuting thread scripts."),
  "C09": ("cmdsim","exploration","§5 C09","deterministic simulation, differential: typed Core twin vs bincode bridge vs JSON bridge on the same out-of-order history",
    "The typed core (itself judged against the reference model) and the bridges run the same history; decoded effect batches, views, resolve outcomes and routing (unique values) must agree per call, ids of outstanding requests must be pairwise distinct. Sampling, not proof.",
    "Trusted: serde/bincode/serde_json as the shell-side decoder."),
@@ -76,6 +79,7 @@ def main():
         "add_only":True,
       },
       "engines":[
+        {"name":"thrsim","path":"sim/src/thr","serves_properties":["C08"],"kind_free_text":"baton-passing controller over real threads at crux_core::verif schedule points; explicit preemption schedules"},
         {"name":"cmdsim","path":"sim/src/cmd","serves_properties":sorted([k for k,v in CHECKS.items() if v[0]=="cmdsim"]),"kind_free_text":"generated program AST built twice (real crux API / reference interpreter), simulated shell with fault injection, six real hosts"},
       ],
       "checks":checks,
